@@ -277,9 +277,12 @@ pub fn scenarios(rng: &mut StdRng, quick: bool) -> Vec<Scenario> {
     let scripts = ["overwrite_rotate", "overwrite_flush", "flush_compact", "delete_flush_compact"];
     for script in scripts {
         for p in reader_points {
+            // the memtable holds key 2; the later points are only reached for a key that is not
+            // in the memtable (key 4 lives in a table file only)
+            let hot = if p == "get_before_mem" { 2 } else { 4 };
             out.push(Scenario {
                 name: format!("get@{}/{}", p, script),
-                victim: Victim::Get { k: 2 },
+                victim: Victim::Get { k: hot },
                 point: p.to_string(),
                 nth: 1,
                 script: script.to_string(),
@@ -304,7 +307,7 @@ pub fn scenarios(rng: &mut StdRng, quick: bool) -> Vec<Scenario> {
         ("write_between_inserts", 2),
         ("write_after_mem", 1),
     ];
-    for script in ["readers", "queue_and_readers"] {
+    for script in ["readers", "queue_and_readers", "queue_big_follower"] {
         for (p, nth) in &writer_points {
             let victims = vec![
                 Victim::Put { k: 2 },
@@ -442,22 +445,26 @@ pub fn run_scenario(sc: &Scenario, seed: u64, run_no: u64) -> SchedOutcome {
             e2.batch(&keys, if big { 200 } else { 30 });
         }
     });
+    let hot: i64 = match &sc.victim {
+        Victim::Get { k } | Victim::SnapGet { k } | Victim::Put { k } => *k,
+        _ => 2,
+    };
     let parked = ctl.wait_parked("v", Duration::from_secs(5));
     let mut helpers: Vec<(String, mpsc::Receiver<()>)> = vec![];
     if parked {
         match sc.script.as_str() {
             "overwrite_rotate" | "overwrite_flush" | "flush_compact" | "delete_flush_compact" => {
                 // overwrite the key the victim looks at, and enough other data to rotate
-                env.put(2, 40);
+                env.put(hot, 40);
                 if sc.script == "delete_flush_compact" {
-                    env.batch(&[3, 4, 2], 30);
+                    env.batch(&[3, 1, hot], 30);
                 }
                 // a value larger than the memtable budget forces a rotation at the next write
                 env.put(6, 5000);
                 for i in 0..6 {
                     env.put(1 + (i % 6), 60);
                 }
-                env.put(2, 40);
+                env.put(hot, 40);
                 if sc.script != "overwrite_rotate" {
                     let _ = db.verif_force_flush();
                     let _ = wait_quiescent(&db, Duration::from_secs(20));
@@ -465,8 +472,28 @@ pub fn run_scenario(sc: &Scenario, seed: u64, run_no: u64) -> SchedOutcome {
                 if sc.script == "flush_compact" || sc.script == "delete_flush_compact" {
                     db.compact_range(None..None);
                     let _ = wait_quiescent(&db, Duration::from_secs(20));
-                    env.put(2, 40);
+                    env.put(hot, 40);
                     env.put(5, 40);
+                }
+            }
+            "queue_big_follower" => {
+                // three writers queue behind the suspended leader; the second one's batch is
+                // larger than the group-commit growth limit, so the group must stop before it
+                for (i, name) in ["w1", "w2", "w3"].iter().enumerate() {
+                    let e3 = Arc::clone(&env);
+                    let rx = spawn_named(name, move || match i {
+                        0 => {
+                            e3.put(3, 40);
+                        }
+                        1 => {
+                            e3.put(4, 200_000);
+                        }
+                        _ => {
+                            e3.batch(&[5, 2], 30);
+                        }
+                    });
+                    ctl.wait_waiting(name, Duration::from_secs(3));
+                    helpers.push((name.to_string(), rx));
                 }
             }
             "readers" | "queue_and_readers" => {
